@@ -38,7 +38,7 @@ impl Cfg {
                     cap,
                     min_ns,
                     max_ns,
-                    max_ops: rng.pick(&[0usize, 1, 2, 7, 60, 100_000]),
+                    max_ops: rng.pick(&[0usize, 1, 2, 7, 60, 1000, 100_000, 100_000]),
                 }
             }
             _ => Cfg::Prob {
